@@ -92,3 +92,30 @@ Proof.
   destruct (execB p (map (lane 0) inp)) as [ob|] eqn:E; [|discriminate].
   destruct (exec_words W p inp ob HW E) as [out [Hz _]]. congruence.
 Qed.
+
+Lemma all_lists_complete : forall x, In x (all_lists (length x)).
+Proof.
+  induction x as [|b r IH]; cbn [length all_lists]; [left; reflexivity|].
+  apply in_or_app. destruct b; [right|left]; apply in_map; exact IH.
+Qed.
+
+Lemma blist_eqb_eq : forall a b, blist_eqb a b = true -> a = b.
+Proof.
+  induction a as [|x r IH]; intros [|y s] H; cbn in H; try discriminate; [reflexivity|].
+  apply andb_true_iff in H. destruct H as [H1 H2]. apply eqb_prop in H1. subst. f_equal. apply IH. exact H2.
+Qed.
+
+(* a program validated exhaustively on Booleans computes f in every lane of every word size *)
+Theorem validate_exhaustive_sound : forall p f, validate_exhaustive p f = true ->
+  forall W inp, (0 < W)%Z -> length inp = size_of (sizes p) 0 ->
+  exists out, execZ W p inp = Some out /\
+    forall j, (0 <= j < W)%Z -> map (lane j) out = f (map (lane j) inp).
+Proof.
+  intros p f Hv W inp HW Hlen. unfold validate_exhaustive in Hv. rewrite forallb_forall in Hv.
+  assert (Hb : forall x, length x = size_of (sizes p) 0 -> execB p x = Some (f x)).
+  { intros x Hx. specialize (Hv x). rewrite <- Hx in Hv. specialize (Hv (all_lists_complete x)).
+    destruct (execB p x) as [o|]; [|discriminate]. apply blist_eqb_eq in Hv. now subst. }
+  destruct (exec_words W p inp _ HW (Hb (map (lane 0) inp) ltac:(rewrite map_length; exact Hlen))) as [out [Hz Hall]].
+  exists out. split; [exact Hz|]. intros j Hj. specialize (Hall j Hj).
+  rewrite Hb in Hall by (rewrite map_length; exact Hlen). injection Hall as Hall. symmetry. exact Hall.
+Qed.
